@@ -725,6 +725,43 @@ class PteraTransformer(NodeTransformer):
                 )
             return accum
 
+        def _unpack(target):
+            # Let Python do the actual unpacking (any iterable, length
+            # check, starred and nested targets) into temporaries, then
+            # assign each temporary to the corresponding original target.
+            leaves = []
+
+            def _clone(tgt):
+                if isinstance(tgt, (ast.Tuple, ast.List)):
+                    return type(tgt)(
+                        elts=[_clone(elt) for elt in tgt.elts],
+                        ctx=ast.Store(),
+                    )
+                elif isinstance(tgt, ast.Starred):
+                    return ast.Starred(value=_clone(tgt.value), ctx=ast.Store())
+                else:
+                    tmp = _gensym()
+                    leaves.append((tmp, tgt))
+                    return ast.Name(id=tmp, ctx=ast.Store())
+
+            accum = [
+                ast.copy_location(
+                    ast.Assign(targets=[_clone(target)], value=node.value),
+                    node,
+                )
+            ]
+            for tmp, tgt in leaves:
+                accum += self.visit_Assign(
+                    ast.copy_location(
+                        ast.Assign(
+                            targets=[tgt],
+                            value=ast.Name(id=tmp, ctx=ast.Load()),
+                        ),
+                        node,
+                    )
+                )
+            return accum
+
         # The right-hand side may itself contain assignment expressions
         # or yields that must be instrumented.
         node.value = self.visit(node.value)
@@ -734,14 +771,7 @@ class PteraTransformer(NodeTransformer):
             return _decompose(targets, lambda value, i: value)
 
         elif isinstance(targets[0], (ast.Tuple, ast.List)):
-            return _decompose(
-                targets[0].elts,
-                lambda value, i: ast.Subscript(
-                    value=value,
-                    slice=ast.Index(value=ast.Constant(i)),
-                    ctx=ast.Load(),
-                ),
-            )
+            return _unpack(targets[0])
         else:
             return self.make_interaction(
                 targets[0], None, node.value, orig=node
